@@ -1,0 +1,46 @@
+//go:build verif
+
+package event
+
+import (
+	"context"
+
+	"github.com/AliceO2Group/Control/common/ecsmetrics"
+	"github.com/AliceO2Group/Control/common/event/topic"
+	"github.com/AliceO2Group/Control/common/monitoring"
+	"github.com/segmentio/kafka-go"
+	"github.com/spf13/viper"
+)
+
+// NewWriterForVerif builds exactly what NewWriterWithTopic builds and starts the
+// same two goroutines; only the broker call (kafka.Writer.WriteMessages) is
+// replaced by writeFn. Verification builds only (tag `verif`).
+func NewWriterForVerif(topic topic.Topic, writeFn func(ctx context.Context, msgs ...kafka.Message) error) *KafkaWriter {
+	writer := &KafkaWriter{
+		Writer: &kafka.Writer{
+			Addr:                   kafka.TCP(viper.GetStringSlice("kafkaEndpoints")...),
+			Topic:                  string(topic),
+			Balancer:               &kafka.Hash{},
+			AllowAutoTopicCreation: true,
+		},
+		toBatchMessagesChan: make(chan kafka.Message, 10000),
+		messageBuffer:       NewFifoBuffer[kafka.Message](),
+		batchingLoopDoneCh:  make(chan struct{}, 1),
+	}
+	writer.writeFunction = func(messages []kafka.Message, metric *monitoring.Metric) {
+		defer ecsmetrics.TimerNS(metric)()
+		if err := writeFn(context.Background(), messages...); err != nil {
+			metric.AddValue("messages_failed", len(messages))
+			log.Errorf("failed to write %d messages to kafka with error: %v", len(messages), err)
+		}
+	}
+	go writer.writingLoop()
+	go writer.batchingLoop()
+	return writer
+}
+
+// VerifSnapshot reads the sizes of the two queue stages, the channel capacity and
+// whether the batching loop has posted its done token (read-only; schedule replay).
+func (w *KafkaWriter) VerifSnapshot() (chanLen, chanCap, bufLen int, doneToken bool) {
+	return len(w.toBatchMessagesChan), cap(w.toBatchMessagesChan), w.messageBuffer.Length(), len(w.batchingLoopDoneCh) > 0
+}
